@@ -10,8 +10,8 @@ use std::sync::atomic::AtomicBool;
 use std::sync::RwLock;
 use std::time::SystemTime;
 
-#[derive(Debug)]
-struct TransferInfo {
+#[derive(Debug, Clone)]
+pub struct TransferInfo {
     transferring: bool,
     transfer_count: u32,
     total_nb_transfer: u64,
@@ -239,9 +239,18 @@ impl FileDesc {
         self.total_nb_transfer() > 0
     }
 
-    pub fn transfer_started(&self, now: SystemTime) {
+    /// Returns the state of the transfer before it was started, see `transfer_cancelled`
+    pub fn transfer_started(&self, now: SystemTime) -> TransferInfo {
         let mut info = self.transfer_info.write().unwrap();
+        let previous = info.clone();
         info.init(&self.object, &self.oti, now);
+        previous
+    }
+
+    /// The transfer could not start: restore the state returned by `transfer_started`
+    pub fn transfer_cancelled(&self, previous: TransferInfo) {
+        let mut info = self.transfer_info.write().unwrap();
+        *info = previous;
     }
 
     pub fn transfer_done(&self, now: SystemTime) {
